@@ -4,8 +4,11 @@ package interp
 
 import (
 	"fmt"
+	"go/token"
 	"go/types"
 	"reflect"
+
+	"golang.org/x/tools/go/ssa"
 )
 
 func rtOf(v value) types.Type { return v.(rtype).t }
@@ -123,8 +126,98 @@ func init() {
 		}
 		return args[0]
 	})
+	// --- method values and calls (used by the handlebars evaluator)
+	ext("(reflect.Value).MethodByName", func(fr *frame, args []value) value {
+		t := rV2T(args[0]).t
+		name := args[1].(string)
+		if t == nil || !token.IsExported(name) {
+			return makeReflectValue(nil, nil)
+		}
+		recv := rV2V(args[0])
+		if types.IsInterface(t) {
+			itf, ok := recv.(iface)
+			if !ok || itf.t == nil {
+				return makeReflectValue(nil, nil)
+			}
+			t, recv = itf.t, itf.v
+		}
+		mset := fr.i.prog.MethodSets.MethodSet(t)
+		for k := 0; k < mset.Len(); k++ {
+			sel := mset.At(k)
+			if sel.Obj().Name() != name {
+				continue
+			}
+			fn := fr.i.prog.MethodValue(sel)
+			if fn == nil {
+				break
+			}
+			sig := sel.Type().(*types.Signature)
+			return makeReflectValue(types.NewSignatureType(nil, nil, nil, sig.Params(), sig.Results(), sig.Variadic()), boundMethod{fn, recv})
+		}
+		return makeReflectValue(nil, nil)
+	})
+	ext("(reflect.Value).Call", func(fr *frame, args []value) value {
+		sig := rV2T(args[0]).t.Underlying().(*types.Signature)
+		in := args[1].([]value)
+		if sig.Variadic() {
+			panic("reflect.Value.Call of a variadic function is not modelled")
+		}
+		if len(in) != sig.Params().Len() {
+			panic(fmt.Sprintf("reflect: Call with %d input arguments, want %d", len(in), sig.Params().Len()))
+		}
+		argv := make([]value, len(in))
+		for k, a := range in {
+			at, av := rV2T(a).t, rV2V(a)
+			if types.IsInterface(sig.Params().At(k).Type()) && at != nil && !types.IsInterface(at) {
+				av = iface{at, av}
+			}
+			argv[k] = av
+		}
+		res := call(fr.i, fr, 0, rV2V(args[0]), argv)
+		n := sig.Results().Len()
+		out := make([]value, n)
+		switch n {
+		case 0:
+		case 1:
+			out[0] = makeReflectValue(sig.Results().At(0).Type(), res)
+		default:
+			for k, r := range res.(tuple) {
+				out[k] = makeReflectValue(sig.Results().At(k).Type(), r)
+			}
+		}
+		return out
+	})
+	ext("(reflect.Value).FieldByIndex", func(fr *frame, args []value) value {
+		t, v := rV2T(args[0]).t, rV2V(args[0])
+		for _, ix := range args[1].([]value) {
+			st := t.Underlying().(*types.Struct)
+			t, v = st.Field(ix.(int)).Type(), v.(structure)[ix.(int)]
+		}
+		return makeReflectValue(t, v)
+	})
+	ext("(reflect.rtype).FieldByName", func(fr *frame, args []value) value {
+		st := rtOf(args[0]).Underlying().(*types.Struct)
+		for k := 0; k < st.NumFields(); k++ {
+			if st.Field(k).Name() == args[1].(string) {
+				return tuple{ext۰reflect۰rtype۰Field(fr, []value{args[0], k}), true}
+			}
+		}
+		return tuple{zero(fr.i.prog.ImportedPackage("reflect").Type("StructField").Type()), false}
+	})
+	ext("(reflect.rtype).IsVariadic", func(fr *frame, args []value) value {
+		return rtOf(args[0]).Underlying().(*types.Signature).Variadic()
+	})
+	ptrTo := func(fr *frame, args []value) value { return makeReflectType(rtype{types.NewPointer(rtArg(args[0]))}) }
+	ext("reflect.PtrTo", ptrTo)
+	ext("reflect.PointerTo", ptrTo)
 	_ = reflect.Invalid
 }
 
+// boundMethod is a method value made by reflection: fn called with recv first.
+type boundMethod struct {
+	fn   *ssa.Function
+	recv value
+}
+
 // extraRtypeMethods are added to the method set of the interpreter's rtype.
-var extraRtypeMethods = []string{"Name", "PkgPath", "ConvertibleTo", "AssignableTo", "Implements", "Comparable", "Key", "Len"}
+var extraRtypeMethods = []string{"Name", "PkgPath", "ConvertibleTo", "AssignableTo", "Implements", "Comparable", "Key", "Len", "FieldByName", "IsVariadic"}
